@@ -32,6 +32,9 @@ CHECKS["C08"] = ("exploration", "E1", "bounded exhaustive enumeration of (value,
 CHECKS["C09"] = ("exploration", "E1", "bounded exhaustive enumeration of type lists (length 1..4) in safe and unsafe mode, with every generated value pushed through the returned conversions",
   "Every list of 1..3 types over a ~55-type core (70 thorough) and every quadruple over a 16-type sub-core: Unify/UnifyUnsafe never panic; on success one conversion per input; every conversion applied to every generated value of its input type never panics and yields a value of the unified type; for placeholder-free inputs a conversion is absent exactly when the input equals the result, safe-mode conversions never fail and are backed by GetConversion; equal inputs unify to themselves with no conversions; safe success implies unsafe success.",
   "trusted: TS model and reference conformance; bound: core type list, <= 9 values per type", "§3 C09")
+CHECKS["C10"] = ("model_checking", "E2", "exhaustive enumeration of (function specification, argument list) configurations with spy callbacks; every implementation event trace validated against a reference protocol automaton",
+  "Every specification of the bounded space (3 type constraints x 16 flag combinations per parameter, 1-2 positional (+3 thorough) and optional variadic parameters, 4 type-check x 4 implementation callback behaviours, optional result refinement) x every argument list of every length over 10 argument kinds: the recorded trace (callback invocations with arguments, outcome) must be a path of the reference automaton: arity, per-argument admission, type-check on the deep-unmarked arguments, mark/unknown short-circuit carrying the unhandled marks, implementation only with contract-satisfying arguments, callback panics as PanicError, non-conforming results never returned, refinement on every typed result, ArgError naming an offender.",
+  "trusted: the automaton (DESIGN app. C) and spy callbacks; where the statement allows two outcomes both are accepted", "§3 C10, §9")
 NOT_YET = {}
 props = [json.loads(l) for l in open('/verif/properties.jsonl')]
 checks = []
